@@ -623,6 +623,44 @@ func walkable(t reflect.Type) bool {
 
 func roleKey(pi int, at []string) string { return fmt.Sprintf("%d#%s", pi, joinPath(at)) }
 
+// canonRole spells the position `at` of an output of declared type root with every promoted
+// field name written out through its embedded fields (one position, one key), looking through
+// interface-typed positions with the dynamic types that `lookup` knows for them.
+func canonRole(pi int, root reflect.Type, at []string, lookup func(key string) (reflect.Type, bool)) []string {
+	out := make([]string, 0, len(at)+2)
+	t := root
+	for i, el := range at {
+		if t != nil && t.Kind() == reflect.Interface {
+			if d, ok := lookup(roleKey(pi, out)); ok {
+				t = d
+			} else {
+				t = nil
+			}
+		}
+		for t != nil && t.Kind() == reflect.Ptr {
+			t = t.Elem()
+		}
+		switch {
+		case t != nil && t.Kind() == reflect.Struct:
+			chain, ok := fieldChain(t, el)
+			if !ok {
+				return append(out, at[i:]...)
+			}
+			for _, sf := range chain {
+				out = append(out, sf.Name)
+			}
+			t = chain[len(chain)-1].Type
+		case t != nil && t.Kind() == reflect.Map:
+			out = append(out, el)
+			t = t.Elem()
+		default:
+			out = append(out, el)
+			t = nil
+		}
+	}
+	return out
+}
+
 // composeDyn: the source candidate that follows base (which ends at an interface-typed
 // position) and continues with sub inside a dynamic value of type d held there.
 func composeDyn(base pathCand, d reflect.Type, sub pathCand) pathCand {
@@ -736,6 +774,26 @@ func tryGenCase(r *mon.Rand) *Case {
 	// finish: may source candidate sc (of predecessor pi) feed a target of declared type lt? Adds the
 	// role of the interface-typed position the candidate ends at and checks every role against those
 	// already fixed by earlier mappings.
+	// roleKeys: one key per role request of a candidate (outer positions first; an inner position is
+	// spelled through the dynamic types the outer requests ask for), and the key of one more position
+	roleKeys := func(pi int, reqs []roleReq, more []string) ([]string, string) {
+		pending := map[string]reflect.Type{}
+		lookup := func(k string) (reflect.Type, bool) {
+			if d, ok := pending[k]; ok {
+				return d, true
+			}
+			d, ok := roles[k]
+			return d, ok
+		}
+		keys := make([]string, len(reqs))
+		for i, rq := range reqs {
+			keys[i] = roleKey(pi, canonRole(pi, c.Preds[pi].Type, rq.At, lookup))
+			if _, ok := pending[keys[i]]; !ok {
+				pending[keys[i]] = rq.Typ
+			}
+		}
+		return keys, roleKey(pi, canonRole(pi, c.Preds[pi].Type, more, lookup))
+	}
 	finish := func(pi int, sc pathCand, lt reflect.Type) (pathCand, bool) {
 		leaf := sc.Leaf
 		if leaf.Kind() != reflect.Interface {
@@ -743,7 +801,8 @@ func tryGenCase(r *mon.Rand) *Case {
 				return sc, false
 			}
 		} else {
-			have, fixed := roles[roleKey(pi, sc.Path)]
+			_, endKey := roleKeys(pi, sc.Roles, sc.Path)
+			have, fixed := roles[endKey]
 			switch {
 			case lt.Kind() != reflect.Interface:
 				if !lt.Implements(leaf) {
@@ -761,10 +820,16 @@ func tryGenCase(r *mon.Rand) *Case {
 				sc.Roles = append(append([]roleReq(nil), sc.Roles...), roleReq{At: clonePath(sc.Path), Typ: shapeImpls[r.Intn(len(shapeImpls))]})
 			}
 		}
-		for _, rq := range sc.Roles {
-			if have, ok := roles[roleKey(pi, rq.At)]; ok && have != rq.Typ {
+		keys, _ := roleKeys(pi, sc.Roles, nil)
+		seen := map[string]reflect.Type{}
+		for i, rq := range sc.Roles {
+			if have, ok := roles[keys[i]]; ok && have != rq.Typ {
 				return sc, false
 			}
+			if have, ok := seen[keys[i]]; ok && have != rq.Typ {
+				return sc, false
+			}
+			seen[keys[i]] = rq.Typ
 		}
 		return sc, true
 	}
@@ -777,11 +842,12 @@ func tryGenCase(r *mon.Rand) *Case {
 			return base, false
 		}
 		var d reflect.Type
-		if have, ok := roles[roleKey(pi, base.Path)]; ok {
+		bkeys, bkey := roleKeys(pi, base.Roles, base.Path)
+		if have, ok := roles[bkey]; ok {
 			d = have
 		} else {
-			for _, rq := range base.Roles {
-				if joinPath(rq.At) == joinPath(base.Path) {
+			for i, rq := range base.Roles {
+				if bkeys[i] == bkey {
 					d = rq.Typ
 				}
 			}
@@ -875,8 +941,9 @@ func tryGenCase(r *mon.Rand) *Case {
 		return k.p, k.c, true
 	}
 	noteRole := func(pi int, sc pathCand) {
-		for _, rq := range sc.Roles {
-			roles[roleKey(pi, rq.At)] = rq.Typ
+		keys, _ := roleKeys(pi, sc.Roles, nil)
+		for i, rq := range sc.Roles {
+			roles[keys[i]] = rq.Typ
 		}
 	}
 	conflictsWithChosen := func(p []string) bool {
